@@ -12,7 +12,8 @@ LEVEL = "exploration"
 RULE = (
     "Same generator as C01. Oracle (a) bytes(serde.encode) == reference canonical encoder (independent "
     "re-implementation, self-tested on the 26 project vectors at start-up), (b) serde.decode(reference bytes) "
-    "== value, (c) the project vectors themselves through the Python codec in both directions. Non-trivial = "
+    "== value, (c) the project vectors themselves through the Python codec in both directions, (d) four directed values whose "
+    "string / array counts do not fit 8 or 16 bits (256, 65535, 65536, 70001). Non-trivial = "
     ">= 2 fields, >= 2 encoded bytes and a sub-byte field, a length-prefixed field, an optional, or field ids "
     "out of declaration order; distinct by sha1(schema text, struct, value)."
 )
@@ -106,8 +107,32 @@ def check_vectors(known: Any = (), rec: Any = None) -> Optional[Dict[str, Any]]:
     return None
 
 
+def check_large_counts(known: Any, rec: Any) -> Optional[Dict[str, Any]]:
+    """Directed cases for the 32-bit length prefixes: counts that do not fit 8 or 16 bits (256, 65536, 70001 ...)."""
+    from vlib import model as M
+
+    s = M.Schema([M.Struct("L", [M.Field("flag", 0, M.U(3)), M.Field("s", 2, M.Str()), M.Field("d", 1, M.Dyn(M.U(8)))])])
+    fcp, text, err = frontend.parse_schema(s)
+    if fcp is None:
+        raise HarnessError(f"front end rejects the large-count schema: {err}")
+    for ns, nd in ((256, 255), (65535, 65536), (65536, 3), (2, 70001)):
+        v = {"flag": 5, "s": "ab" * (ns // 2) + "c" * (ns % 2), "d": [(i * 7) & 0xFF for i in range(nd)]}
+        ref = refcodec.encode(s, "L", v)
+        msg = check_value(fcp, s, "L", v, ref, known, rec)
+        rec.eval()
+        rec.cls("large_count")
+        if msg:
+            return {"message": f"string of {ns} / array of {nd} elements: {msg[:300]}",
+                    "case": {"kind": "large_count", "ns": ns, "nd": nd}}
+    return None
+
+
 def run_shard(ctx: Ctx) -> None:
     rec = ctx.rec
+    if ctx.shard == 1 % ctx.nshards:
+        bad = check_large_counts(ctx.known, rec)
+        if bad:
+            rec.violations.append({**bad, "seed": ctx.base_seed, "shard": ctx.shard})
     if ctx.shard == 0:
         bad = check_vectors(ctx.known, rec)
         rec.extra["project_vectors_checked"] = len(refcodec.load_vectors())
@@ -141,6 +166,11 @@ def run_shard(ctx: Ctx) -> None:
 
 
 def replay(case: Dict[str, Any]) -> Optional[str]:
+    if case.get("kind") == "large_count":
+        from vlib.runner import Recorder, load_known
+
+        bad = check_large_counts(load_known("C02"), Recorder())
+        return bad["message"] if bad else None
     if case.get("kind") == "vector":
         from vlib.runner import load_known
 
